@@ -529,6 +529,10 @@ def run(rep):
             rep.guarded("R-C06-step", lambda r, t=t: C06.rule_step(r, t, asyncmodel.extract(facts, t)))
     rep.floor("R-C06-step", 4 * 3 + 18)
     rep.clause("R-C06-step", "position and step advance once per frame and the ramp increment is (1/target − 1/ratio)/frames with the frame count the output estimate uses (shared with C06)")
+    import shares
+    shares.restore(rep, list(RESAMPLERS), "'at every point of every valid history' includes the state reset() leaves")
+    rep.floor("R-C10-restore", 51)
+    shares.conserve(rep, "the counts the FFT adapters return are the frames they moved")
     rep.floor("R-C04-agree", 1 + 14)
     rep.floor("R-C04-counter", 2 + 9)
     rep.floor("R-C04-max-const", 14)
